@@ -22,6 +22,7 @@ func init() {
 	register("JSN-4", "malformed rules are rejected", 8, ruleJSN4)
 	register("JSN-5", "unary negation only in the unary form of `not`", 1, ruleJSN5)
 	register("JSN-6", "the translator keeps no state between calls", 3, ruleJSN6)
+	register("JSN-7", "the rule description is decoded by the builder the way the translator encodes it", 1, ruleJSN7)
 }
 
 // docOperatorTable reads the operator table of docs/en/GRL_JSON_en.md: key -> GRL operator.
@@ -709,4 +710,63 @@ func hiddenState(t types.Type, d int) bool {
 		}
 	}
 	return false
+}
+
+// JSN-7: writer/reader agreement for the description: the translator emits strconv.Quote(description) (JSN-3), so the
+// listener must store the unquoted text of the description token, not the raw characters between the quotes.
+func ruleJSN7(c *Ctx) {
+	p := c.P
+	fn := p.Method("antlr", "GruleV3ParserListener", "ExitRuleEntry")
+	uq := p.Func("antlr", "unquoteString")
+	descF := p.Field("ast", "RuleEntry", "RuleDescription")
+	if fn == nil || descF == nil {
+		c.AnchorLost("ExitRuleEntry / RuleEntry.RuleDescription")
+		return
+	}
+	construct := "ExitRuleEntry / description token is unquoted like a string literal"
+	n := 0
+	okAll := true
+	why := ""
+	for _, b := range fn.Blocks {
+		for _, in := range b.Instrs {
+			f, _, val := fieldStore(in)
+			if f != descF || f == nil {
+				continue
+			}
+			n++
+			fromUnquote := derivesFrom(val, func(v ssa.Value) bool {
+				call, ok := v.(*ssa.Call)
+				if !ok {
+					return false
+				}
+				callee := call.Call.StaticCallee()
+				return callee != nil && (callee == uq || callee.String() == "strconv.Unquote")
+			})
+			if fromUnquote {
+				continue
+			}
+			// a raw fallback is tolerated only on the failure edge of the unquoting call
+			rawOK := false
+			for _, ci := range callsIn(fn) {
+				call, ok := ci.(*ssa.Call)
+				if !ok {
+					continue
+				}
+				callee := call.Call.StaticCallee()
+				if callee == nil || !(callee == uq || callee.String() == "strconv.Unquote") {
+					continue
+				}
+				for _, e := range resultValues(call, 1) {
+					if dominatedByNonNilTest(b, e) {
+						rawOK = true
+					}
+				}
+			}
+			if !rawOK {
+				okAll = false
+				why = "RuleDescription is stored at " + p.InstrPos(in) + " from the raw token text (only the surrounding quotes are cut off)"
+			}
+		}
+	}
+	c.Check(n >= 1 && okAll, construct, p.Pos(fn.Pos()), "stored value comes from unquoteString (raw text only when unquoting fails)", why+": escapes are not decoded, so a description written by the JSON translator with strconv.Quote (or any description containing \\\" or \\n) comes back with its backslashes")
 }
